@@ -56,7 +56,7 @@ ASSUMPTIONS = [
 SYMS = ["N", "M", "K", "L"]
 BIN = ["add", "sub", "mul", "div", "fdiv", "mod", "max", "min"]
 UN = ["neg", "floor", "ceil", "trunc"]
-LIMIT = 10**40
+LIMIT = 10**200
 
 
 class TooBig(Exception):
@@ -610,22 +610,75 @@ def pow_safe(s: str, envs=()) -> bool:
     if toks is None:
         toks = [("num", m) if m.isdigit() else ("id", m) if m[0].isalpha() or m[0] == "_" else (m, m)
                 for m in re.findall(r"\d+|[A-Za-z_][A-Za-z0-9_.]*|\*\*|.", s)]
-    npow = sum(1 for k, _ in toks if k == "**")
-    operands = [(k, t) for k, t in toks if k in ("num", "id")]
-    v = 1
-    for k, t in operands:
-        v *= max(2, int(t)) if k == "num" else 3
-        if v > 10**9:
+    # Python cannot read the text (malformed stream), so it is never evaluated under bindings unless
+    # the real parser accepts it anyway; what can blow up is SymPy folding LITERAL powers while it
+    # parses.  Bound every exponent whose operand contains no identifier.
+    def group(i):
+        """token span of the unary operand starting at i: '-'* then a number / identifier / bracketed group"""
+        while i < len(toks) and toks[i][0] == "-":
+            i += 1
+        j = i
+        if j < len(toks) and toks[j][0] == "id" and j + 1 < len(toks) and toks[j + 1][0] == "(":
+            j += 1
+        if j < len(toks) and toks[j][0] == "(":
+            depth = 0
+            while j < len(toks):
+                depth += toks[j][0] == "("
+                depth -= toks[j][0] == ")"
+                j += 1
+                if depth == 0:
+                    break
+            return toks[i:j]
+        return toks[i : j + 1]
+
+    npow = 0
+    for i, (k, _) in enumerate(toks):
+        if k != "**":
+            continue
+        npow += 1
+        g = group(i + 1)
+        # a tower a ** b ** c: the exponent of this `**` continues through the next one
+        j = i + 1 + len(g)
+        while j < len(toks) and toks[j][0] == "**":
+            g2 = group(j + 1)
+            g = g + [("**", "**")] + g2
+            j += 1 + len(g2)
+        nums = [int(t) for kk, t in g if kk == "num"]
+        if any(kk == "id" for kk, _ in g) and not any(kk == "**" for kk, _ in g):
+            continue  # symbolic exponent: stays symbolic while parsing
+        inner_pows = sum(1 for kk, _ in g if kk == "**")
+        prod = 1
+        for n in nums:
+            prod *= max(2, n)
+        if inner_pows == 0:
+            if prod > 4096:
+                return False
+        elif inner_pows == 1:
+            if len(nums) + sum(1 for kk, _ in g if kk == "id") > 3 or any(n > 4 for n in nums):
+                return False
+        else:
             return False
-    if npow == 1:
-        return v <= 10**6
-    if npow == 2:
-        return len(operands) <= 4 and all(k == "id" or int(t) <= 3 for k, t in operands)
-    return False
+    return npow <= 12
 
 
 def has_sqrt2(s: str) -> bool:
-    return "sqrt" in s and "," in s
+    """a `sqrt(` call with more than one top-level argument (SymPy reads the second as evaluate=)"""
+    toks = lex(s)
+    if toks is None:
+        return False
+    for i, (kind, text) in enumerate(toks):
+        if kind == "id" and text == "sqrt" and i + 1 < len(toks) and toks[i + 1][0] == "(":
+            depth = 0
+            for k2, _ in toks[i + 1 :]:
+                if k2 == "(":
+                    depth += 1
+                elif k2 == ")":
+                    depth -= 1
+                    if depth == 0:
+                        break
+                elif k2 == "," and depth == 1:
+                    return True
+    return False
 
 
 # --- Python's own grammar as the reference meaning of a string ---------------------------------
@@ -797,31 +850,92 @@ def sympy_direct_value(t, *envs, simplify=False):
         return "raised:" + type(e).__name__
 
 
-def upstream_blame(real_val, *cands, simplify=False):
-    """The real result is wrong, but it is exactly what SymPy itself computes for the same
-    operations (cands: (tree, env, ...) readings): the defect is SymPy's arithmetic /
-    simplification, not the repo's code.  Returns the blamed tree or None."""
+def _subtrees(t):
+    """all subtrees, children before parents"""
+    if t[0] == "u":
+        yield from _subtrees(t[2])
+    elif t[0] == "b":
+        yield from _subtrees(t[2])
+        yield from _subtrees(t[3])
+    yield t
+
+
+def _has(t, pred) -> bool:
+    return any(pred(x) for x in _subtrees(t))
+
+
+def _is_lattice(x) -> bool:
+    return x[0] == "b" and x[1] in ("max", "min")
+
+
+def _is_sym_pow(x) -> bool:
+    """a power whose exponent is not a plain non-negative literal"""
+    return x[0] == "b" and x[1] == "pow" and not (x[3][0] == "n" and x[3][1] >= 0)
+
+
+def _is_quotient_by_lattice(x) -> bool:
+    return x[0] == "b" and x[1] in ("div", "fdiv", "mod") and _has(x[3], _is_lattice)
+
+
+def sympy_defect_locus(t, env):
+    """smallest subtree whose value SymPy alone (construction + subs) gets wrong under env; the
+    whole tree when every subtree is right in isolation (order-of-substitution / simplify effects)"""
+    for x in _subtrees(t):
+        try:
+            want = ref_eval(x, env)
+        except (TooBig, KeyError):
+            continue
+        if want is not None and sympy_direct_value(x, env) != fr(want):
+            return x
+    return t
+
+
+def sympy_defect_class(t, env) -> str:
+    """Known upstream SymPy 1.14 defect classes, each reproduced with SymPy alone:
+      Mod-of-power           Mod(2**M, 6) == 0 (gcd extraction in Mod.eval); also through floor(x/c), which
+                             SymPy rewrites with Mod: a power with a non-literal exponent under % // floor ceiling
+      lattice-over-quotient  Max(3, 3/Max(x, z)) == 3/Max(x, z): a Max/Min that has an operand dividing by a Max/Min
+    anything else is 'unclassified' and is NOT covered by a known finding."""
+    locus = sympy_defect_locus(t, env)
+    if _has(locus, _is_sym_pow) and _has(locus, lambda x: x[0] in "ub" and x[1] in ("mod", "fdiv", "floor", "ceil")):
+        return "Mod-of-power"
+    if _has(locus, lambda x: _is_lattice(x) and _has(x, _is_quotient_by_lattice)):
+        return "lattice-over-quotient"
+    return "unclassified"
+
+
+def _blame(got, cands, simplify=False):
+    """(tree, merged env) of the first reading for which SymPy alone computes the same wrong value"""
     for c in cands:
         t, *envs = c
-        if t is not None and sympy_direct_value(t, *envs, simplify=simplify) == real_val:
-            return t
+        if t is not None and sympy_direct_value(t, *envs, simplify=simplify) == got:
+            env = {}
+            for e in envs:
+                env.update(e)
+            return t, env
     return None
 
 
 def vfail(P, sig, what, case, got, *cands, simplify=False):
-    """a wrong VALUE on the real code: attributed to SymPy (signature sympy-upstream:...) when SymPy
-    alone computes the same wrong value, to the repo otherwise"""
-    t = upstream_blame(got, *cands, simplify=simplify)
-    if t is not None:
-        P.count("sympy_upstream_channel=" + sig.split(":")[0])
-        P.fail("sympy-upstream:value", what + f" [SymPy alone computes the same wrong value; channel {sig.split(':')[0]}, operators {ops_sig(t)}]", case)
-    else:
+    """A wrong VALUE on the real code.  When SymPy alone, driven with the documented operations,
+    computes the same wrong value, the signature names the SymPy defect class, the channel and the
+    operator set: `sympy-upstream:<class>:<channel>:<ops>`.  Only the classes listed in
+    known_findings.json are known findings; `unclassified` (and every value SymPy alone gets right)
+    is a violation."""
+    b = _blame(got, cands, simplify)
+    if b is None:
         P.fail(sig, what, case)
+        return
+    t, env = b
+    cls = sympy_defect_class(t, env)
+    P.count("sympy_upstream=" + cls + ":" + sig.split(":")[0])
+    P.fail(f"sympy-upstream:{cls}:{sig.split(':')[0]}:{ops_sig(t)}", what + " [SymPy alone computes the same wrong value]", case)
 
 
 def vdisagree(P, what, case, model, impl, got, *cands):
-    if upstream_blame(got, *cands) is not None:
-        P.count("value_disagreement_blamed_on_sympy")
+    b = _blame(got, cands)
+    if b is not None and sympy_defect_class(*b) != "unclassified":
+        P.count("value_disagreement_blamed_on_known_sympy_defect")
     else:
         P.disagree(what, case, model, impl)
 
@@ -1122,7 +1236,8 @@ class TreeCase:
         if self.d is None:
             return
         self.value = d.value
-        self.real_vals = [cached_eval(d, e) for e in self.envs]
+        # memoised only in the small exhaustive scopes, where the same text is reached from many trees
+        self.real_vals = [cached_eval(d, e) if self.light else real_eval(d, e) for e in self.envs]
         # oracle 1: complete bindings
         for env, want, got in zip(self.envs, self.ref, self.real_vals):
             if want is not None and got != fr(want):
@@ -1132,7 +1247,8 @@ class TreeCase:
         self.reparse = real_parse_outcome(self.value)
         self.vals2 = None
         if self.reparse[0] == "ok":
-            self.vals2 = vals2 = [cached_eval(self.reparse[1], e, "reparsed") for e in (self.envs[:4] if self.light else self.envs)]
+            self.vals2 = vals2 = [cached_eval(self.reparse[1], e, "reparsed") if self.light else real_eval(self.reparse[1], e)
+                                  for e in (self.envs[:4] if self.light else self.envs)]
             for env, want, got in zip(self.envs, self.ref, vals2):
                 if want is not None and got != fr(want):
                     vfail(P, "print-parse:value:" + _text_sig(self.value), f"SymbolicDim({self.value!r}).evaluate({env}) = {got}, exact value {fr(want)}", self.case_obj, got, (t, env), (py_tree(self.value), env))
@@ -1162,8 +1278,10 @@ class TreeCase:
                 if want is not None:
                     if rp[0] != "ok":
                         P.fail("partial:residual-text:" + rp[0] + ":" + _text_sig(r1text or ""), f"residual {r1text!r} of evaluate({b1}) does not parse", self.case_obj)
-                    elif real_eval(rp[1], b2) != fr(want):
-                        vfail(P, "partial:residual-text:value:" + _text_sig(r1text), f"residual {r1text!r} re-parsed evaluates to {real_eval(rp[1], b2)} under {b2}, exact {fr(want)}", self.case_obj, real_eval(rp[1], b2), (t, b1, b2), (py_tree(r1text), b2))
+                    elif real_eval(rp[1], b2) != got:
+                        # the residual's text must evaluate like the residual itself (whether THAT is the exact
+                        # value is the next check)
+                        vfail(P, "partial:residual-text:value:" + _text_sig(r1text), f"residual {r1text!r} re-parsed evaluates to {real_eval(rp[1], b2)} under {b2}, the residual itself to {got}", self.case_obj, real_eval(rp[1], b2), (py_tree(r1text), b2))
                 return got, free1, r1text
 
             st, res = attempt(_partial)
@@ -1191,9 +1309,10 @@ class TreeCase:
                     P.fail("simplify:text:" + rp[0] + ":" + _text_sig(ds.value), f"simplify() text {ds.value!r} does not parse", self.case_obj)
                 elif rp[0] == "ok":
                     for env, want in zip(self.envs, self.ref):
-                        got = real_eval(rp[1], env)
-                        if want is not None and got != fr(want):
-                            vfail(P, "simplify:text:value:" + _text_sig(ds.value), f"simplify() text {ds.value!r} re-parsed evaluates to {got} under {env}, exact {fr(want)}", self.case_obj, got, (py_tree(ds.value), env))
+                        got, own = real_eval(rp[1], env), real_eval(ds, env)
+                        if want is not None and got != own:
+                            # the simplified dimension's text must evaluate like the simplified dimension
+                            vfail(P, "simplify:text:value:" + _text_sig(ds.value), f"simplify() text {ds.value!r} re-parsed evaluates to {got} under {env}, the simplified dimension itself to {own}", self.case_obj, got, (py_tree(ds.value), env))
                             break
 
             st, res = attempt(_simplify)
@@ -1203,6 +1322,41 @@ class TreeCase:
         # oracle 5: Shape lifts evaluate / simplify / free_symbols dimension-wise
         if self.shape:
             self._shape(P)
+            self._serde(P)
+
+    def _serde(self, P: Part):
+        """what a saved model stores: dim_param = the text (serde.py serialize_dimension_into); through the
+        protobuf wire format and back, the dimension must evaluate as before"""
+        import onnx
+        import onnx_ir as ir
+        from onnx_ir import serde
+
+        d = self.d
+
+        def _go():
+            tp = onnx.TypeProto()
+            tp.tensor_type.elem_type = 1
+            serde.serialize_shape_into(tp, ir.Shape([d, 7, "K", None]))
+            params = [x.dim_param if x.HasField("dim_param") else None for x in tp.tensor_type.shape.dim]
+            if params != [d.value, None, "K", None] or tp.tensor_type.shape.dim[1].dim_value != 7:
+                P.fail("serde:dim_param", f"serialized dims {params} for Shape([{d.value!r}, 7, 'K', None])", self.case_obj)
+            tp2 = onnx.TypeProto()
+            tp2.ParseFromString(tp.SerializeToString())
+            back = serde.deserialize_type_proto_for_shape(tp2)
+            d2 = back.dims[0]
+            if not isinstance(d2, ir.SymbolicDim) or d2.value != d.value or back.dims[1] != 7:
+                P.fail("serde:round-trip:text", f"deserialized dims {[getattr(x, 'value', x) for x in back.dims]} for text {d.value!r}", self.case_obj)
+                return
+            for env, want, own in zip(self.envs[:4], self.ref, self.real_vals):
+                got = real_eval(d2, env)
+                if want is not None and got != own:
+                    vfail(P, "serde:round-trip:value:" + _text_sig(d.value), f"dimension {d.value!r} evaluates to {own} under {env}, after serialize/deserialize to {got}", self.case_obj, got, (py_tree(d.value), env))
+                    break
+
+        st, res = attempt(_go)
+        P.count("serde=" + ("done" if st == "ok" else res))
+        if st != "ok" and self.ref[0] is not None:
+            P.fail("serde:raises", f"serializing / deserializing a shape with dimension {d.value!r} raises ({res})", self.case_obj)
 
     def _shape(self, P: Part):
         import onnx_ir as ir
@@ -1390,6 +1544,90 @@ class StringCase:
             P.disagree("token streams differ", self.case_obj, tk.get("r"), real_toks)
 
 
+class UnknownDimCase:
+    """`SymbolicDim(None)` (an unknown dimension) as an operand of every operator: the result is an
+    unknown dimension again, never an exception (oracle only; the model has no unknown dimension)."""
+
+    def __init__(self, op: str, side: str, src: str = "unknown-dim"):
+        self.op, self.side, self.src = op, side, src
+        self.reqs = []
+
+    def prepare(self, P: Part):
+        import onnx_ir as ir
+
+        none, other = ir.SymbolicDim(None), {"dim": ir.SymbolicDim("N") + 1, "int": 3}[self.side.split("-")[1]]
+        unk_left = self.side.startswith("left")
+        a, b = (none, other) if unk_left else (other, none)
+        case = {"kind": "unknown-dim", "op": self.op, "side": self.side}
+        fn = {"add": lambda: a + b, "sub": lambda: a - b, "mul": lambda: a * b, "div": lambda: a / b, "fdiv": lambda: a // b,
+              "mod": lambda: a % b, "neg": lambda: -none, "floor": lambda: math.floor(none), "ceil": lambda: math.ceil(none),
+              "trunc": lambda: math.trunc(none), "simplify": lambda: none.simplify(), "evaluate": lambda: none.evaluate({"N": 3})}[self.op]
+        st, res = attempt(fn)
+        P.case(["unknown-dim", self.op, self.side], nontrivial=True, src=self.src, op_unknown=self.op)
+        if st != "ok":
+            P.fail(f"unknown-dim:{self.op}:{self.side}:raises", f"{self.op} with an unknown dimension ({self.side}) raises {res}", case)
+        elif not isinstance(res, ir.SymbolicDim) or res.value is not None:
+            P.fail(f"unknown-dim:{self.op}:{self.side}:value", f"{self.op} with an unknown dimension ({self.side}) returns {res!r}", case)
+        elif res.free_symbols() != frozenset() or not (res == ir.SymbolicDim(None)):
+            P.fail(f"unknown-dim:{self.op}:{self.side}:observers", "free_symbols / equality of the unknown result", case)
+        raise SkipCase
+
+    def finish(self, P: Part, outs):
+        pass
+
+
+class NonAsciiCase:
+    """Texts with non-ASCII digits / spaces / letters (outside the ASCII-only Lean model): oracle only.
+    `str.isdigit/isspace/isalpha` accept them, so the parser must read the text like its ASCII
+    normalisation (decimal digits by value, any Unicode space as a blank), or raise ValueError."""
+
+    def __init__(self, s: str, envs, src: str = "non-ascii"):
+        self.s, self.envs, self.src = s, envs, src
+        self.reqs = []
+
+    def prepare(self, P: Part):
+        import unicodedata
+
+        s = self.s
+        case = {"kind": "non-ascii", "s": s, "envs": self.envs}
+        norm = []
+        convertible = True
+        for ch in s:
+            if ord(ch) < 128:
+                norm.append(ch)
+            elif ch.isspace():
+                norm.append(" ")
+            elif ch.isdigit():
+                try:
+                    norm.append(str(int(ch)))
+                except ValueError:  # superscripts etc.: isdigit() but int() refuses
+                    convertible = False
+                    norm.append("?")
+            elif ch.isalpha():
+                norm.append("u%04x" % ord(ch))
+            else:
+                convertible = False
+                norm.append("?")
+        ascii_text = "".join(norm)
+        envs2 = [{"".join("u%04x" % ord(c) if ord(c) >= 128 else c for c in k): v for k, v in e.items()} for e in self.envs]
+        out, ref = real_parse_outcome(s), real_parse_outcome(ascii_text)
+        P.case(["non-ascii", s], nontrivial=True, sample={"s": s, "real": out[0]}, src=self.src, outcome_nonascii=out[0])
+        if not convertible:
+            if out[0] == "ok":
+                P.fail("non-ascii:accepted", f"text {s!r} contains a character no ASCII reading exists for but parses", case)
+        elif out[0] != ref[0]:
+            P.fail("non-ascii:outcome", f"text {s!r} is {out[0]}, its ASCII normalisation {ascii_text!r} is {ref[0]}", case)
+        elif out[0] == "ok":
+            for e, e2 in zip(self.envs, envs2):
+                if real_eval(out[1], e) != real_eval(ref[1], e2):
+                    P.fail("non-ascii:value", f"text {s!r} evaluates to {real_eval(out[1], e)}, its ASCII normalisation {ascii_text!r} to {real_eval(ref[1], e2)}", case)
+                    break
+        raise SkipCase
+
+    def finish(self, P: Part, outs):
+        pass
+
+
 class DerivCase:
     """One derivation tree of the grammar: Lean flatten/sem/parse vs the real parser."""
 
@@ -1484,28 +1722,32 @@ def _run_chunk(arg):
     def _alarm(_sig, _frm):
         raise CaseTimeout
 
-    signal.signal(signal.SIGALRM, _alarm)
+    signal.signal(signal.SIGVTALRM, _alarm)  # CPU time of this worker, not wall time: independent of machine load
     for it in items:
         if kind == "tree":
             c = TreeCase(**it)
         elif kind == "deriv":
             c = DerivCase(**it)
+        elif kind == "unknown":
+            c = UnknownDimCase(**it)
+        elif kind == "nonascii":
+            c = NonAsciiCase(**it)
         else:
             c = StringCase(**it)
         t0 = time.process_time()
         try:
-            signal.setitimer(signal.ITIMER_REAL, 30)
+            signal.setitimer(signal.ITIMER_VIRTUAL, 30)
             c.prepare(P)
-            signal.setitimer(signal.ITIMER_REAL, 0)
+            signal.setitimer(signal.ITIMER_VIRTUAL, 0)
         except (RecursionError, MemoryError, CaseTimeout, SkipCase) as e:
-            signal.setitimer(signal.ITIMER_REAL, 0)
+            signal.setitimer(signal.ITIMER_VIRTUAL, 0)
             if not isinstance(e, SkipCase):
                 P.count("skipped=" + type(e).__name__)
             c.reqs = []
             c.skip_all = True
         P.count("cpu_ms_real_code+oracle:" + it.get("src", kind), int(1000 * (time.process_time() - t0)))
         cases.append(c)
-    signal.setitimer(signal.ITIMER_REAL, 0)
+    signal.setitimer(signal.ITIMER_VIRTUAL, 0)
     reqs = [r for c in cases for r in c.reqs]
     outs = _lean(reqs) if reqs else []
     k = 0
@@ -1521,12 +1763,12 @@ def _run_chunk(arg):
         if n and all("err" not in x for x in o):
             t0 = time.process_time()
             try:
-                signal.setitimer(signal.ITIMER_REAL, 60)
+                signal.setitimer(signal.ITIMER_VIRTUAL, 60)
                 c.finish(P, o)
             except (RecursionError, MemoryError, CaseTimeout) as e:
                 P.count("skipped_in_compare=" + type(e).__name__)
             finally:
-                signal.setitimer(signal.ITIMER_REAL, 0)
+                signal.setitimer(signal.ITIMER_VIRTUAL, 0)
                 P.count("cpu_ms_compare:" + getattr(c, "src", kind), int(1000 * (time.process_time() - t0)))
     return P
 
@@ -1628,7 +1870,7 @@ def run(ctx: Ctx) -> None:
         for op in BIN:
             for c in (-1, 0, 1, 2, 3, 4):
                 for tree in (("b", op, x, ("n", c)), ("b", op, ("n", c), x)):
-                    tree_items.append(dict(tree=tree, envs=edge_envs, splits=[({"N": 7}, {"M": 2})], simplify=False, shape=False, src="edge", light=True))
+                    tree_items.append(dict(tree=tree, envs=edge_envs, splits=[({"N": 7}, {"M": 2})], simplify=(nedge % 6 == 0), shape=(nedge % 3 == 0), src="edge", light=True))
                     nedge += 1
         for op in UN:
             tree_items.append(dict(tree=("u", op, x), envs=edge_envs, splits=[({"M": 2}, {"N": 7})], simplify=False, shape=False, src="edge", light=True))
@@ -1644,14 +1886,50 @@ def run(ctx: Ctx) -> None:
         nsyms = rng.choice([1, 2, 2, 3, 4])
         t = gen_tree(rng, depth, nsyms, [-7, -3, -2, -1, 0, 1, 2, 3, 4, 6, 12])
         syms = tree_syms(t)
-        envs = make_envs(rng, syms, 3) + [{s: 1 for s in syms}]
+        envs = make_envs(rng, syms, 3) + [{s: 1 for s in syms}, {s: rng.choice([10**6 + 3, 2**31 - 1, 10**12 + 39, 2**64 + 13]) for s in syms}]
         splits = make_splits(rng, envs[0], 2)
-        simp = tree_size(t) <= (10 if ctx.quick else 14) and i % 3 == 0 and nsimp < ctx.pick(60, 1500)
+        simp = tree_size(t) <= (10 if ctx.quick else 14) and i % 2 == 0 and nsimp < ctx.pick(80, 1500)
         nsimp += simp
-        tree_items.append(dict(tree=t, envs=envs, splits=splits, simplify=simp, shape=(i % 5 == 0), src="random"))
+        tree_items.append(dict(tree=t, envs=envs, splits=splits, simplify=simp, shape=True, src="random"))
     # ---- strings: grammar-directed + malformed
     for s in FIXED_MALFORMED:
         str_items.append(dict(s=s, envs=_string_envs(rng, s), src="fixed"))
+    # maximal munch, exhaustively: every operator-character string of length <= 3 between two operands, with
+    # no blank, and with one blank at every position (`N//M`, `N/ /M`, `N***M`, `N** *M`, `N*-M`, ...)
+    nmunch = 0
+    for n in (1, 2, 3):
+        for ops in itertools.product("*/%+-", repeat=n):
+            o = "".join(ops)
+            forms = {"N" + o + "M", "2" + o + "3", "N" + o + "(M)"}
+            for i in range(len(o) + 1):
+                forms.add("N" + o[:i] + " " + o[i:] + "M")
+                forms.add("N" + o[:i] + "\t" + o[i:] + "2")
+            for s in sorted(forms):
+                str_items.append(dict(s=s, envs=[{"N": 7, "M": 2}, {"N": 3, "M": 5}], src="munch"))
+                nmunch += 1
+    for s in ["1 2", "12 34", "1N", "N1", "N 1", "N_1", "_1", "1_", "N.M", "N .M", "N. M", "N . M", "1.M", "N.1", "N..1", "(N)(M)", "N(M)", "N (M)",
+              "max(N)(M)", "N\x1c+\x1dM", "N\x0b*\x0cM", "N \n ** \r 2", "N*\n*2", "/ /", "N/\x1f/M", "0 0", "00", "0N", "N0", "007N", "N007",
+              "N,M", "N , M", "max(N,M)", "max(N ,M)", "max( N , M )", "max(N,,M)", "(N,M)", "N;M"]:
+        str_items.append(dict(s=s, envs=[{"N": 7, "M": 2, "N1": 3, "N_1": 4, "_1": 5, "N0": 6, "N007": 2, "N.M": 3, "N.1": 4, "N..1": 2, "N.": 5}], src="munch"))
+        nmunch += 1
+    ctx.exhaustive_scopes.append(
+        f"{nmunch} maximal-munch texts: every string of <= 3 operator characters from * / % + - between two operands, without "
+        "a blank and with one blank or tab at every position, plus number/identifier/dot/comma adjacency forms"
+    )
+    other_items = []
+    for op in ("add", "sub", "mul", "div", "fdiv", "mod"):
+        for side in ("left-dim", "left-int", "right-dim", "right-int"):
+            if side == "right-int":
+                continue  # int op unknown: the reflected overloads, covered by left/right with an int on the other side
+            other_items.append(("unknown", dict(op=op, side=side)))
+        other_items.append(("unknown", dict(op=op, side="right-int")))
+    for op in ("neg", "floor", "ceil", "trunc", "simplify", "evaluate"):
+        other_items.append(("unknown", dict(op=op, side="left-dim")))
+    NONASCII = ["\u0661+N", "N+\u0662\u0663", "N\u00a0+\u00a01", "N\u2003*\u20032", "N+\u00b2", "\u00e9+1", "N*\u00e9", "N\uff0b1", "\uff11+N",
+                "max(\u0661, N)", "N//\u0969", "\u00bd*N", "N\u3000-\u30001", "N\u200b+1", "\u03b1.\u03b2+1", "N**\u0662", "\u0967\u0966%N"]
+    for s in NONASCII:
+        names = sorted(set(re.findall(r"[^\W\d][\w.]*", s)) - {"max"})
+        other_items.append(("nonascii", dict(s=s, envs=[{n: 3 for n in names}, {n: 8 for n in names}])))
     deriv_items = []
     sdepths = [1, 1, 2, 2, 3] if ctx.quick else [1, 2, 2, 3, 4]
     max_tokens = ctx.pick(120, 400)  # SymPy's Max/Min/Mod construction is the cost of a long sentence
@@ -1678,9 +1956,37 @@ def run(ctx: Ctx) -> None:
         str_items.append(dict(s=s, envs=_string_envs(rng, s), src="malformed"))
     ctx.count("corpus_cases", ncorpus)
     rng.shuffle(tree_items)
-    parts = pmap(_run_chunk, _chunks("tree", tree_items, 64 if ctx.quick else 512) + _chunks("string", str_items, 32 if ctx.quick else 128) + _chunks("deriv", deriv_items, 16 if ctx.quick else 64))
+    other_chunks = [(k, [it]) for k, it in other_items]
+    parts = pmap(_run_chunk, other_chunks + _chunks("tree", tree_items, 64 if ctx.quick else 512) + _chunks("string", str_items, 32 if ctx.quick else 128) + _chunks("deriv", deriv_items, 16 if ctx.quick else 64))
     for p in parts:
         ctx.merge(p)
+    _coverage_floors(ctx, len(tree_items), len(str_items) + len(deriv_items))
+
+
+def _coverage_floors(ctx: Ctx, ntrees: int, nstrings: int) -> None:
+    """The run is only meaningful if the generated cases were actually exercised: exit 2 (infrastructure)
+    when skipped / timed-out cases or thin clauses would make the evidence misleading."""
+    from harness.common import Infra
+
+    d = ctx.dist
+    skipped_infra = sum(v for k, v in d.items() if k.startswith("skipped=") and k.split("=")[1] in ("CaseTimeout", "MemoryError", "RecursionError"))
+    skipped_infra += sum(v for k, v in d.items() if k.startswith("skipped_in_compare="))
+    floors = [
+        ("tree cases evaluated", sum(v for k, v in d.items() if k.startswith("build=")), int(0.97 * ntrees)),
+        ("string cases evaluated", d.get("outcome=ok", 0) + d.get("outcome=raised", 0) + d.get("outcome=arith", 0), int(0.95 * nstrings)),
+        ("simplify() clauses checked", d.get("simplify=done", 0), ctx.pick(150, 800)),
+        ("Shape clauses checked", d.get("shape=done", 0), ctx.pick(450, 2500)),
+        ("serialize/deserialize clauses checked", d.get("serde=done", 0), ctx.pick(450, 2500)),
+        ("integer-fragment comparisons", d.get("int_fragment=checked", 0), ctx.pick(800, 20000)),
+        ("standard-meaning oracle applied", d.get("meaning=checked", 0), ctx.pick(600, 10000)),
+    ]
+    problems = [f"{name}: {got} < {need}" for name, got, need in floors if got < need]
+    if skipped_infra > max(5, (ntrees + nstrings) // 200):
+        problems.append(f"{skipped_infra} cases hit the CPU-time / memory / recursion limit")
+    ctx.extra["coverage_floors"] = {name: {"got": got, "floor": need} for name, got, need in floors}
+    ctx.extra["cases_over_resource_limit"] = skipped_infra
+    if problems:
+        raise Infra("coverage floors not met: " + "; ".join(problems))
 
 
 def _string_envs(rng, s):
